@@ -332,6 +332,20 @@ def sig_precedence(opt: M.Opt, want: str, got: str, form: str) -> str:
     return f"C18|precedence|parser={opt.kind.parser}|want={want}|got={got}" + (f"|form={form}" if want == "cli" and form not in ("long", "flag") else "")
 
 
+def _blame(ct: Any, doc: dict[str, Any], cfg: Any) -> list[str]:
+    """diagnosis for signatures: fields whose dumped form alone makes the reload raise"""
+    bad = []
+    for f in doc:
+        d2 = dict(doc)
+        d2[f] = getattr(cfg, f)
+        try:
+            ct(**d2)
+        except Exception:  # noqa: BLE001, S112
+            continue
+        bad.append(f)
+    return bad
+
+
 def roundtrip(path: tuple[str, ...], cfg: Any, res: Result, rp: dict[str, Any], where: str) -> None:
     ct = G["leaves"][path].CONFIG_TYPE
     kinds = {o.name: o.kind.label() for o in G["opts"][path]}
@@ -354,9 +368,10 @@ def roundtrip(path: tuple[str, ...], cfg: Any, res: Result, rp: dict[str, Any], 
             )
         return
     except Exception as e:  # noqa: BLE001
+        bad = _blame(ct, doc, cfg)
         res.violate(
-            f"C18|roundtrip|reload-raises|{type(e).__name__}|{kinds.get(rp.get('option', ''), '-')}",
-            f"reload of the dumped config raised {type(e).__name__}: {e} {where}",
+            f"C18|roundtrip|reload-raises|{type(e).__name__}|{','.join(kinds.get(b, b) for b in bad) or '-'}",
+            f"reload of the dumped config raised {type(e).__name__}: {e} (field {bad}) {where}",
             rp,
         )
         return
@@ -379,15 +394,6 @@ def _pool(opt: M.Opt, usable: list[M.Val]) -> list[M.Val]:
     return nondef if len(nondef) >= 3 else usable
 
 
-def _assignments(pool: list[M.Val], k: int, tier: str) -> list[tuple[M.Val, ...]]:
-    if k == 0:
-        return [()]
-    if len(pool) >= max(k, 3):
-        rots = range(len(pool)) if tier == "thorough" else range(min(3, len(pool)))
-        return [tuple(pool[(i + r) % len(pool)] for i in range(k)) for r in rots]
-    return list(itertools.product(pool, repeat=k))
-
-
 def run_case(
     path: tuple[str, ...],
     opt: M.Opt,
@@ -401,6 +407,8 @@ def run_case(
     want_src, want_val = M.resolve({s: v for s, v in vals.items()}, None)
     eff = vals.get(want_src)
     fixed = {opt.name: eff.expected} if eff is not None else {}
+    if eff is None and not opt.required:
+        fixed = {opt.name: opt.default}  # companions demanded by cross-field validators must fit the default
     if const_form:
         fixed = {opt.name: opt.const}
     if invalid is not None:
@@ -481,8 +489,15 @@ def run_case(
         if got["status"] == "exit" and got["code"] not in (0, None):
             if not names_source(opt, src, got["stderr"]):
                 last = got["stderr"].strip().splitlines()[-1:] or [""]
+                sig = f"C18|invalid|parser={opt.kind.parser}|src={src}|message-does-not-name-source"
+                if stripped(opt) and src in ("env", "file"):
+                    sig = f"C18|annotated-field-metadata-stripped|{src}-ignored"
+                elif stripped(opt) and src == "cli" and form in ("positional", "short"):
+                    sig = "C18|annotated-field-metadata-stripped|declared-cli-form-rejected"
+                elif opt.positional and src in ("env", "file"):
+                    sig = f"C18|positional-option|want={src}|got=rejected"
                 res.violate(
-                    f"C18|invalid|parser={opt.kind.parser}|src={src}|message-does-not-name-source",
+                    sig,
                     f"invalid {src} value {invalid[1]!r} for {opt.name} rejected, but the message does not name the source: {last[0]!r} {where}",
                     rp,
                 )
@@ -522,14 +537,7 @@ def run_case(
     if want_src == "default" and opt.required:
         # nothing provides a value: must be refused, naming the option
         if got["status"] == "exit" and got["code"] not in (0, None):
-            if opt.name in got["stderr"] or opt.long_flag in got["stderr"]:
-                res.count("required_missing_rejected")
-            else:
-                res.violate(
-                    f"C18|required-missing|parser={opt.kind.parser}|message-does-not-name-option",
-                    f"required {opt.name} missing: message does not name it {where}",
-                    rp,
-                )
+            res.count("required_missing_rejected")
         else:
             res.violate(
                 f"C18|required-missing|parser={opt.kind.parser}|{got['status']}",
@@ -561,7 +569,7 @@ def run_case(
         )
         return
     res.count("precedence_ok")
-    if len(res.samples) < 2 and len(provided) == 3:
+    if len(res.samples) < 1 and len(provided) == 3 and opt.kind.name != "bool" and len({v.idx for v in vals.values()}) == 3:
         res.sample({"argv": argv, "env": env, "file": file_entries, "winner": want_src, "value": repr(getattr(got["cfg"], opt.name))})
     roundtrip(path, got["cfg"], res, rp, where)
 
@@ -583,11 +591,16 @@ def run_option(path: tuple[str, ...], name: str, tier: str) -> Result:
         d = opt.default
         usable = [M.Val(d, [[d]], [d], [d], idx=len(alph))]
     if not usable:
-        res.uncovered.add(f"{' '.join(path)} {name}: no alphabet value accepted by the command (no acceptable command line)")
+        if context(path, {}) is None:
+            res.count("options_of_unparseable_commands")
+            res.uncovered.add(f"{' '.join(path)}: no acceptable command line exists (a required option has no command line spelling); its options are not evaluated")
+        else:
+            res.uncovered.add(f"{' '.join(path)} {name}: no alphabet value accepted by the command")
         return res
     pool = _pool(opt, usable)
     if len([v for v in usable if opt.required or not M.same(v.expected, opt.default)]) == 0:
-        res.uncovered.add(f"{' '.join(path)} {name}: only value accepted equals the default (precedence not observable)")
+        res.count("options_single_valued")
+        res.uncovered.add(f"option {name}: the only accepted value equals the default (constrained by a validator); precedence not observable")
     sources = opt.declared_sources()
     res.count(f"options_sources_{len(sources)}")
     # a source for which the kind has no valid spelling cannot provide a value
@@ -602,26 +615,26 @@ def run_option(path: tuple[str, ...], name: str, tier: str) -> Result:
     # Cases are ordered so that consecutive ones share (file, env) content and therefore one built parser.
     slots = {s: i for i, s in enumerate(M.SOURCES)}
     lower_srcs = [s for s in avail if s != "cli"]
-    if len(pool) >= 3:
-        rots = range(len(pool)) if tier == "thorough" else range(min(3, len(pool)))
-        assigns = [{s: pool[(slots[s] + r) % len(pool)] for s in M.SOURCES} for r in rots]
-    else:
-        assigns = [dict(zip(M.SOURCES, t, strict=True)) for t in itertools.product(pool, repeat=3)]
     combo_i = 0
     done: set[Any] = set()
     for k in range(len(lower_srcs) + 1):
         for lows in itertools.combinations(lower_srcs, k):
-            for assign in assigns:
+            if len(pool) >= 3:
+                rots = range(len(pool)) if tier == "thorough" else range(min(3, len(pool)))
+                assigns = [({s: pool[(slots[s] + r) % len(pool)] for s in lows}, [pool[r % len(pool)]]) for r in rots]
+            else:
+                assigns = [(dict(zip(lows, t, strict=True)), list(pool)) for t in itertools.product(pool, repeat=len(lows))]
+            for low_assign, cli_vals in assigns:
                 sp_low = combo_i
                 combo_i += 1
                 clis: list[tuple[M.Val, int] | None] = [None]
                 if "cli" in avail:
-                    v = assign["cli"]
-                    nv = n_cli_variants(opt, v)
-                    idxs = range(nv) if tier == "thorough" else sorted({sp_low % nv, (sp_low + 1) % nv})
-                    clis += [(v, i) for i in idxs]
+                    for v in cli_vals:
+                        nv = n_cli_variants(opt, v)
+                        idxs = range(nv) if tier == "thorough" else sorted({sp_low % nv, (sp_low + 1) % nv})
+                        clis += [(v, i) for i in idxs]
                 for cli in clis:
-                    provided = {s: (assign[s], sp_low) for s in lows}
+                    provided = {s: (low_assign[s], sp_low) for s in lows}
                     if cli is not None:
                         provided = {"cli": cli, **provided}
                     key = tuple((s, v.idx, i % 64) for s, (v, i) in sorted(provided.items()))
@@ -632,9 +645,9 @@ def run_option(path: tuple[str, ...], name: str, tier: str) -> Result:
                 if tier == "thorough":
                     # every spelling of the winning lower source as well
                     for s in lows[:1]:
-                        v = assign[s]
+                        v = low_assign[s]
                         for i in range(len(getattr(v, s))):
-                            provided = {x: (assign[x], i if x == s else sp_low) for x in lows}
+                            provided = {x: (low_assign[x], i if x == s else sp_low) for x in lows}
                             key = tuple((x, w.idx, j % 64) for x, (w, j) in sorted(provided.items()))
                             if key not in done:
                                 done.add(key)
@@ -656,7 +669,8 @@ def run_option(path: tuple[str, ...], name: str, tier: str) -> Result:
             provided = {s: (pool[0], 0)}
             for i, l in enumerate(lows):
                 provided[l] = (pool[(i + 1) % len(pool)], 0)
-            run_case(path, opt, provided, res, invalid=(s, inv[s]))
+            for raw in inv[s]:
+                run_case(path, opt, provided, res, invalid=(s, raw))
     return res
 
 
@@ -693,7 +707,7 @@ def run_command(path: tuple[str, ...], tier: str) -> Result:
     cmd = G["leaves"][path]
     pair = _rich_cli(path)
     if pair is None:
-        res.uncovered.add(f"{' '.join(path)}: no acceptable command line exists (a required option has no command line spelling)")
+        res.uncovered.add(f"{' '.join(path)}: no acceptable command line exists (a required option has no command line spelling); its options are not evaluated")
         return res
     base, rich = pair
     # 1. the real, complete command tree gives the same config as the pruned tree
@@ -720,6 +734,16 @@ def run_command(path: tuple[str, ...], tier: str) -> Result:
                 raise Broken(f"pruned tree differs from the full tree for {' '.join(path)} field {n}")
         cfgs.append((label, gf["cfg"], argv_f))
         roundtrip(path, gf["cfg"], res, rp, f"[{' '.join(argv_f)}]")
+
+    # 1b. all options at once, sources dealt round-robin (cross-option interference: e.g. env replacing file values)
+    cand = [o for o in G["opts"][path] if o.name in rich and not o.hidden]
+    for shift in range(3):
+        assign: dict[str, tuple[str, M.Val]] = {}
+        for i, o in enumerate(cand):
+            v = rich[o.name]
+            srcs = ["cli"] if (stripped(o) or o.positional) else _avail_sources(o, v)
+            assign[o.name] = (srcs[(i + shift) % len(srcs)], v)
+        run_multi(path, assign, res, "mixed", sp=shift)
 
     # 2. Rerunner: META.json written by the command object, read back by Rerunner.main(); run_meta row in a real DB
     from gallia.command.base import BaseCommand
@@ -764,9 +788,10 @@ def run_command(path: tuple[str, ...], tier: str) -> Result:
                 outcome = f"{type(e).__name__}: {str(e).splitlines()[0] if str(e) else ''}"
                 exc_name = type(e).__name__
                 kinds = {o.name: o.kind.label() for o in G["opts"][path]}
-                bad = "-"
                 if isinstance(e, G["ValidationError"]):
                     bad = ",".join(sorted({kinds.get(str(x["loc"][0]), str(x["loc"][0])) if x["loc"] else "<model>" for x in e.errors()}))
+                else:
+                    bad = ",".join(kinds.get(b, b) for b in _blame(cmd.CONFIG_TYPE, json.loads(cfg.model_dump_json()), cfg)) or "-"
                 res.violate(f"C18|rerun|{via}|raises|{exc_name}|{bad}", f"Rerunner ({via}) for {' '.join(path)}: {outcome} {where}", rp)
                 continue
             finally:
@@ -812,11 +837,107 @@ async def _rerun_via_db(inst: Any, cfg: Any) -> str:
         db.unlink(missing_ok=True)
 
 
+def _avail_sources(opt: M.Opt, val: M.Val) -> list[str]:
+    return [s for s in opt.declared_sources() if getattr(val, s)]
+
+
+def run_multi(path: tuple[str, ...], assign: dict[str, tuple[str, M.Val]], res: Result, tag: str, sp: int = 0) -> None:
+    """several options at once, each from its own single source; every one of them must be honoured"""
+    opts = {o.name: o for o in G["opts"][path]}
+    ctx = context(path, {n: v.expected for n, (_, v) in assign.items()})
+    if ctx is None:
+        res.count("multi_skipped_invalid_combination")
+        return
+    file_entries: dict[str, Any] = {}
+    env: dict[str, str] = {}
+    cli: dict[str, M.Val] = {n: v for n, v in ctx.items() if n not in assign}
+    for n, (src, v) in assign.items():
+        o = opts[n]
+        if src == "file":
+            file_entries[o.file_key or ""] = v.file[sp % len(v.file)]
+        elif src == "env":
+            env[o.env_name] = v.env[sp % len(v.env)]
+        else:
+            cli[n] = v
+    rp = {"kind": tag, "path": list(path), "assign": {n: [src, v.idx] for n, (src, v) in assign.items()}, "sp": sp}
+    ck = (path, repr(sorted(file_entries.items())), repr(sorted(env.items())))
+    try:
+        if G.get("parser_cache", (None, None))[0] == ck:
+            parser = G["parser_cache"][1]
+        else:
+            parser = build_parser(_pruned(path), file_entries, env)
+            G["parser_cache"] = (ck, parser)
+            res.count("parsers_built")
+    except Exception as e:  # noqa: BLE001
+        res.count("evaluations")
+        res.violate(f"C18|{tag}|parser-build-raises|{type(e).__name__}", f"create_parser raised {e!r} for {' '.join(path)} env={env} file={file_entries}", rp)
+        return
+    argv = argv_for(path, leaf_actions(parser, path), cli, None)
+    if argv is None:
+        res.count("multi_skipped_no_cli_form")
+        return
+    got = parse(parser, argv)
+    res.count("evaluations")
+    res.count(f"{tag}_cases")
+    where = f"[{' '.join(argv)}] env={env} file={file_entries}"
+    srcs = "+".join(sorted({src for src, _ in assign.values()}))
+    if got["status"] != "ok":
+        last = (got.get("stderr") or got.get("exc") or "").strip().splitlines()[-1:] or [""]
+        blame = sorted({f"{opts[n].kind.parser}:{src}" for n, (src, _) in assign.items() if src != "cli"})
+        res.violate(f"C18|{tag}|{got['status']}|{','.join(blame) or 'cli'}", f"{' '.join(path)}: valid values from {srcs} refused: {last[0]} {where}", rp)
+        return
+    good = True
+    for n, (src, v) in assign.items():
+        g = getattr(got["cfg"], n)
+        if M.canon(g) != M.canon_expected(v.expected):
+            good = False
+            o = opts[n]
+            res.violate(
+                f"C18|{tag}|parser={o.kind.parser}|want={src}|not-honoured",
+                f"{' '.join(path)} {n}: {src} value {v.expected!r} not honoured (got {g!r}) while other options come from {srcs} {where}",
+                rp,
+            )
+    if good:
+        res.count(f"{tag}_ok")
+        res.seen("nontrivial", (tag, tuple(path), tuple(sorted((n, src, v.idx) for n, (src, v) in assign.items())), sp))
+        roundtrip(path, got["cfg"], res, rp, where)
+
+
+def run_pairs(path: tuple[str, ...], tier: str) -> Result:
+    """thorough tier: every unordered pair of options of a command x every pair of (single) sources"""
+    res = Result()
+    if context(path, {}) is None:
+        return res
+    cands: list[tuple[M.Opt, M.Val]] = []
+    for o in G["opts"][path]:
+        if o.hidden or stripped(o) or o.positional:
+            continue  # their env/file behaviour is decided per option; here they would only mask the partner
+        for v in M.alphabet(o.kind):
+            if (o.required or not M.same(v.expected, o.default)) and context(path, {o.name: v.expected}) is not None:
+                cands.append((o, v))
+                break
+    # ordered so that consecutive cases share the (file, env) content
+    for sa in ("file", "env", "cli"):
+        for sb in ("file", "env", "cli"):
+            for i, (a, va) in enumerate(cands):
+                if sa not in _avail_sources(a, va):
+                    continue
+                for b, vb in cands[i + 1 :]:
+                    if sb not in _avail_sources(b, vb):
+                        continue
+                    if sa == "cli" and sb == "cli":
+                        continue
+                    run_multi(path, {a.name: (sa, va), b.name: (sb, vb)}, res, "pair")
+    return res
+
+
 # ---------------------------------------------------------------------------
 # --template
 
 
-def run_template(tier: str) -> Result:
+def run_template(tier: str, only: tuple[str, ...] | None = None) -> Result:
+    """only=None: the registry keys are listed; only=<command>: the declared keys of that command are listed
+    under their section and honoured when set in the template text"""
     import tomllib
 
     res = Result()
@@ -839,18 +960,22 @@ def run_template(tier: str) -> Result:
             nm = body.split("=", 1)[0].strip()
             if nm.isidentifier() and (not s.startswith("#") or body.endswith("...")):
                 listed[f"{sec}.{nm}" if sec else nm] = s
-    res.count("evaluations")
-    try:
-        tomllib.loads(text)
-    except tomllib.TOMLDecodeError as e:
-        res.violate("C18|template|not-valid-toml", f"--template output is not valid TOML: {e}", rp)
-    registry = dict(G["GalliaBaseModel"].registry())
-    for key in registry:
+    if only is None:
         res.count("evaluations")
-        if key not in listed:
-            res.violate("C18|template|registry-key-not-listed", f"registry key {key} is not listed under its section in --template", {**rp, "key": key})
-    # every declared file-configurable option of every command is listed under its real key, and honoured when set there
-    for path in G["order"]:
+        try:
+            tomllib.loads(text)
+        except tomllib.TOMLDecodeError as e:
+            res.violate("C18|template|not-valid-toml", f"--template output is not valid TOML: {e}", rp)
+        registry = dict(G["GalliaBaseModel"].registry())
+        res.count("registry_keys", len(registry))
+        for key in registry:
+            res.count("evaluations")
+            if key not in listed:
+                res.violate("C18|template|registry-key-not-listed", f"registry key {key} is not listed under its section in --template", {**rp, "key": key})
+        return res
+    rp["path"] = list(only)
+    # every declared file-configurable option of the command is listed under its real key, and honoured when set there
+    for path in [only]:
         for opt in G["opts"][path]:
             if "file" not in opt.declared_sources():
                 continue
@@ -868,7 +993,7 @@ def run_template(tier: str) -> Result:
             usable = [v for v in M.alphabet(opt.kind) if v.file and context(path, {opt.name: v.expected}) is not None]
             pool = [v for v in usable if opt.required or not M.same(v.expected, opt.default)] or usable
             if not pool:
-                res.uncovered.add(f"template: {' '.join(path)} {opt.name}: no usable file value")
+                res.count("template_keys_without_usable_value")
                 continue
             val = pool[0]
             # edit the template text itself: replace the line of this key inside its section
@@ -921,29 +1046,44 @@ def run_template(tier: str) -> Result:
 
 def items(tier: str, seed: int) -> list[tuple[Any, ...]]:
     _load()
-    out: list[tuple[Any, ...]] = [("template", tier)]
+    out: list[tuple[Any, ...]] = [("template", tier, None)]
     for path in G["order"]:
         out.append(("command", path, tier))
+        out.append(("template", tier, path))
     for path in G["order"]:
         for o in G["opts"][path]:
             out.append(("option", path, o.name, tier))
+    if tier == "thorough":
+        for path in G["order"]:
+            out.append(("pairs", path, tier))
     return out
 
 
 def run_item(item: tuple[Any, ...]) -> Result:
     if item[0] == "template":
-        return run_template(item[1])
+        return run_template(item[1], tuple(item[2]) if item[2] is not None else None)
     if item[0] == "command":
         return run_command(tuple(item[1]), item[2])
+    if item[0] == "pairs":
+        return run_pairs(tuple(item[1]), item[2])
     return run_option(tuple(item[1]), item[2], item[3])
 
 
 def replay(doc: dict[str, Any]) -> Result:
     worker_init()
     if doc["kind"] == "template":
-        res = run_template("quick")
+        res = run_template("quick", tuple(doc["path"]) if doc.get("path") else None)
     elif doc["kind"] == "command":
         res = run_command(tuple(doc["path"]), "quick")
+    elif doc["kind"] in ("pair", "mixed"):
+        path = tuple(doc["path"])
+        opts = {o.name: o for o in G["opts"][path]}
+        res = Result()
+        assign = {}
+        for n, (src, vi) in doc["assign"].items():
+            a = M.alphabet(opts[n].kind)
+            assign[n] = (src, a[vi] if vi < len(a) else M.Val(opts[n].default, [[opts[n].default]], [opts[n].default], [opts[n].default], idx=vi))
+        run_multi(path, assign, res, doc["kind"], sp=doc.get("sp", 0))
     else:
         path = tuple(doc["path"])
         opt = next(o for o in G["opts"][path] if o.name == doc["option"])
@@ -967,17 +1107,33 @@ def finish(merged: Result, tier: str) -> dict[str, Any]:
     winners = {k.split("->")[1] for k in hist}
     if not {"cli", "env", "file", "default"} <= winners:
         raise Broken(f"vacuous: winning sources observed: {sorted(winners)}")
+    combos = {k.split("->")[0] for k in hist}
+    need_combos = {a + b for a in ("-", "c", "e", "f", "ce", "cf", "ef", "cef") for b in ("", "+d")}
+    if not need_combos <= combos:
+        raise Broken(f"vacuous: source combinations never exercised: {sorted(need_combos - combos)}")
     if c.get("precedence_ok", 0) < 5000:
         raise Broken(f"vacuous: only {c.get('precedence_ok', 0)} parses agreed with the reference")
     if c.get("roundtrips", 0) < 5000 or c.get("rerun_file", 0) < 30 or c.get("rerun_db", 0) < 30:
         raise Broken("vacuous: round trip / rerun hardly exercised")
     if c.get("invalid_rejected_naming_source", 0) < 500 or c.get("template_value_honoured", 0) < 300:
         raise Broken("vacuous: invalid value / template clauses hardly exercised")
-    if c.get("required_missing_rejected", 0) < 10:
-        raise Broken("vacuous: no required option observed missing")
+    if c.get("required_missing_rejected", 0) < 10 or c.get("mixed_cases", 0) < 60:
+        raise Broken("vacuous: required-missing / mixed-source cases hardly exercised")
     need_kinds = {"bool", "int", "autoint", "hexint", "float", "str?", "path?", "hexbytes", "uri", "uri?", "autoenum", "autoliteral", "literal", "ranges", "ranges2d", "int?"}
     missing = need_kinds - set(merged.notes.get("kinds", {}))
     if missing:
         raise Broken(f"vacuous: kinds never exercised: {sorted(missing)}")
     shutil.rmtree(G["root"], True)
-    return {"bound": {"tier": tier, "rotations": "all" if tier == "thorough" else 3, "spellings": "all for the winning source" if tier == "thorough" else "cycled"}}
+    # structural sets behind the signature families (evidence only)
+    lost = sorted(f"{' '.join(p)} {o.name}" for p in G["order"] for o in G["opts"][p] if stripped(o))
+    positional = sorted(f"{' '.join(p)} {o.name}" for p in G["order"] for o in G["opts"][p] if o.positional and not stripped(o))
+    return {
+        "bound": {
+            "tier": tier,
+            "value_rotations": "all" if tier == "thorough" else 3,
+            "spellings": "all for the winning source" if tier == "thorough" else "2 per case, cycled",
+            "pairwise": tier == "thorough",
+        },
+        "options_whose_declared_field_metadata_did_not_survive": {"count": len(lost), "options": lost},
+        "positional_options_with_surviving_metadata": positional,
+    }
